@@ -70,12 +70,12 @@ def main(run, args):
             print("VIOLATION property=%s replay=%s" % (ID, args.replay))
         return 1 if bad else 0
     # ---- (1) stdlib sweep
-    fns, cases, outs, viol = sc.sweep(run, ID, 12 if quick else 150, 3000)
+    fns, cases, outs, viol = sc.sweep(run, ID, 12 if quick else 60, 3000)
     sc.report(run, ID, fns, cases, outs, viol)
     known = {k["id"]: k for k in vlib.known_findings(ID)}
     # ---- (2) programs: valid (model-tied) and mutated (compile/render/run under catch_unwind)
     vlib.build_harness("prog")
-    pcases = cv.gen_random_cases(run, 500 if quick else 8000)
+    pcases = cv.gen_random_cases(run, 500 if quick else 4000)
     pouts, compiled, bad_check, failed, err = cv.run_cases(ID, pcases)
     msrc = []
     for c in pcases:
